@@ -65,6 +65,26 @@ def run(ctx):
             ids.append(cid)
             cases.append({"id": cid, "steps": st2, "marks": marks})
         groups.append((f"m{t}", steps, marks, ids))
+    # the wall clock must not decide archive content: a file dated a few seconds AHEAD of the clock, unchanged between two
+    # backups; one replay runs at once, the other after that moment has passed
+    import time
+    for t in range(2 if quick else 6):
+        ahead = time.time_ns() + 5_000_000_000
+        tree = {"k": "d", "mode": 0o755, "mtime": 10**18, "c": {
+            "past": {"k": "f", "data": "70617374", "mode": 0o644, "mtime": 10**18},
+            "soon": {"k": "f", "data": "736f6f6e21", "mode": 0o644, "mtime": ahead},
+            "soon2": {"k": "f", "data": "3232", "mode": 0o644, "mtime": ahead + 1}}}
+        opts = {"meph": ctx.rng.choice([2, 100000]), "mbs": 64, "sfc": ctx.rng.choice([0, 16])}
+        steps = [{"op": "init"}, {"op": "mktree", "path": "src", "tree": tree}, {"op": "backup", "opts": opts}, {"op": "arch"},
+                 {"op": "backup", "opts": opts}, {"op": "arch"}]
+        marks = [{"kind": "init"}, {"kind": "mktree"}, {"kind": "backup"}, {"kind": "arch"}, {"kind": "backup"}, {"kind": "arch"}]
+        late = [{"op": "init"}, {"op": "mktree", "path": "src", "tree": tree}, {"op": "sleep", "ms": 8000}, {"op": "backup", "opts": opts}, {"op": "arch"},
+                {"op": "backup", "opts": opts}, {"op": "arch"}]
+        lmarks = [{"kind": "init"}, {"kind": "mktree"}, {"kind": "sleep"}, {"kind": "backup"}, {"kind": "arch"}, {"kind": "backup"}, {"kind": "arch"}]
+        cases.append({"id": f"w{t}_now", "steps": steps, "marks": marks})
+        cases.append({"id": f"w{t}_late", "steps": late, "marks": lmarks})
+        groups.append((f"w{t}", steps, marks, [f"w{t}_now", f"w{t}_late"]))
+    cases.sort(key=lambda c: 0 if c["id"].startswith("w") else 1)      # the clock-sensitive replays start first
     res = ctx.cvh_run(cases, timeout=3000)
     hs = []
     for t, steps, marks, ids in groups:
@@ -77,7 +97,7 @@ def run(ctx):
                 ctx.oracle_fail("determinism/crash", f"history replay under {cid.split('_')[1]} crashed or hung", {"steps": steps, "runtime": cid.split("_")[1]})
                 bad = True
                 break
-            archs = [x["arch"] for x, m in zip(r, marks) if m["kind"] == "arch"]
+            archs = [x["arch"] for x in r if isinstance(x, dict) and "arch" in x]
             finals.append((cid, archs, r))
         if bad:
             continue
